@@ -77,6 +77,7 @@ fn dispatch(line: &str) -> PResult<String> {
         "rt" => by_fam!(t, op_rt),
         "dec" => by_fam!(t, op_dec),
         "sched" => by_fam!(t, op_sched),
+        "schedi" => by_fam!(t, op_schedi),
         "stream" => by_fam!(t, op_stream),
         "faultr" => by_fam!(t, op_faultr),
         "wr" => by_fam!(t, op_wr),
@@ -990,12 +991,22 @@ fn op_dec<F: Fam>(t: &mut Toks) -> PResult<String> {
 
 // ---------------------------------------------------------------- 4.7 sched
 
+/// `sched` with a transport that fills the read window through initialize_unfilled() + advance()
+fn op_schedi<F: Fam>(t: &mut Toks) -> PResult<String> {
+    sched_with::<F>(t, true)
+}
+
 fn op_sched<F: Fam>(t: &mut Toks) -> PResult<String> {
+    sched_with::<F>(t, false)
+}
+
+fn sched_with<F: Fam>(t: &mut Toks, init_mode: bool) -> PResult<String> {
     let atoms = parse_atoms(t.next()?)?;
     let tail = parse_tail(t.next()?)?;
     t.done()?;
     let limit = atoms.len() + 8;
     let mut rd = SchedReader::new(atoms, tail);
+    rd.init_mode = init_mode;
     let mut st = GenericPollPacketState::<F::Hdr>::default();
     let mut pend = 0usize;
     let r = guard(|| loop {
@@ -1308,6 +1319,11 @@ enum ResumeErr {
 
 async fn resume(rd: &mut &[u8]) -> Result<Resumed, ResumeErr> {
     let (byte, rl) = decode_raw_header(rd).await.map_err(ResumeErr::V3)?;
+    resume_body(rd, byte, rl).await
+}
+
+/// the part of `resume` after the fixed header (also used on the body the poll decoder retained in its state)
+async fn resume_body(rd: &mut &[u8], byte: u8, rl: u32) -> Result<Resumed, ResumeErr> {
     let proto = Protocol::decode_async(rd).await.map_err(ResumeErr::V3)?;
     match proto {
         Protocol::V310 | Protocol::V311 => {
@@ -1345,6 +1361,60 @@ async fn resume_wrong(rd: &mut &[u8]) -> Result<Resumed, ResumeErr> {
                 .map_err(ResumeErr::V5)?;
             Ok(Resumed::V5(v5::Packet::Connect(c)))
         }
+    }
+}
+
+/// Poll front-end of family F on the whole slice; when it refuses, continue with the matching family's
+/// known-protocol entry point on the body bytes the decoder retained in the caller-owned state.
+fn poll_state_resume<F: Fam>(out: &mut String, bytes: &[u8]) {
+    let mut prd = ScriptReader::whole(bytes);
+    let mut st = GenericPollPacketState::<F::Hdr>::default();
+    let pr = guard(|| poll_until_ready::<F, _>(&mut st, &mut prd));
+    if !matches!(pr, Ok(Err(_))) {
+        out.push('-');
+        return;
+    }
+    let body: Vec<u8> = match &st {
+        GenericPollPacketState::Body(b) if b.idx == b.buf.len() && !b.buf.is_empty() => {
+            b.buf.iter().map(|x| unsafe { x.assume_init() }).collect()
+        }
+        _ => {
+            out.push_str("lost");
+            return;
+        }
+    };
+    let mut hd: &[u8] = bytes;
+    let (byte, rl) = match block_on(decode_raw_header(&mut hd)) {
+        Ok(x) => x,
+        Err(_) => {
+            out.push('-');
+            return;
+        }
+    };
+    let mut rd: &[u8] = &body;
+    let r = guard(|| block_on(resume_body(&mut rd, byte, rl)));
+    print_resumed(out, r);
+}
+
+fn print_resumed(out: &mut String, r: Result<Result<Resumed, ResumeErr>, Panicked>) {
+    match r {
+        Ok(Ok(Resumed::V3(p))) => {
+            out.push_str("ok v3 ");
+            V3::print(out, &p);
+        }
+        Ok(Ok(Resumed::V5(p))) => {
+            out.push_str("ok v5 ");
+            V5::print(out, &p);
+        }
+        Ok(Err(ResumeErr::V3(e))) => {
+            out.push_str("err ");
+            cm::print_err(out, &e);
+        }
+        Ok(Err(ResumeErr::V5(e))) => {
+            out.push_str("err ");
+            pk5::print_err(out, &e);
+        }
+        Err(p) => panic_str(out, &p),
     }
 }
 
@@ -1416,6 +1486,12 @@ fn op_cross(t: &mut Toks) -> PResult<String> {
             pk5::print_err(&mut out, &e);
         }
         Err(p) => panic_str(&mut out, &p),
+    }
+    out.push_str(";presume=");
+    if is5 {
+        poll_state_resume::<V5>(&mut out, &bytes);
+    } else {
+        poll_state_resume::<V3>(&mut out, &bytes);
     }
     Ok(out)
 }
